@@ -48,6 +48,7 @@ def run(rep, repo, tier):
     solve = repo.method('Solver', 'solve')
     getters = [repo.method('Solver', g) for g in GETTERS]
     # ---- R1 -------------------------------------------------------------------------------------------------------
+    sreach0 = E.reachable([solve])
     for g in getters:
         evs = E.analyse(g)
         reach = E.reachable([g])
@@ -57,6 +58,11 @@ def run(rep, repo, tier):
             if key in seen:
                 continue
             seen.add(key)
+            why = benign_memo(ev, reach, sreach0)
+            if why:
+                rep.ok('C18.R1', g.where, 'a memo of the rendered value, keyed by every argument of the memoised function and emptied by each solve, does not change what the getter returns',
+                       got=why, loc=ev.loc)
+                continue
             rep.fail('C18.R1', g.where, 'getter is read-only', got=ev.describe(), want='no store / in-place update of an object that outlives the call',
                      construct='%s %s in %s: %s' % (ev.kind, ev.attr or '', ev.func.qualname, ev.text()), loc=ev.loc)
         if not evs:
@@ -109,6 +115,95 @@ def run(rep, repo, tier):
         rep.ok('C18.R3', solve.where, 'none of the %d mutation events of solve() and the getters has an option container on its access path' % len(sevs), got='0 tainted events')
     check_never_fail(rep, repo, E, getters)
     check_fresh_objects(rep, repo, E, solve, sreach, long_lived)
+
+
+# ---- benign memoisation ----------------------------------------------------------------------------------------------------
+def benign_memo(ev, reach, sreach):
+    """A store into an attribute-held memo inside a getter is harmless when: (1) every access to that attribute in the
+    getter slice is inside the storing function and is a lookup / membership test / store with ONE key expression;
+    (2) the key mentions every parameter of that function (the rest of the state cannot change between two solves:
+    that is what R1 shows for everything else); (3) the stored value does not read the memo; (4) the attribute is
+    re-assigned to a fresh container on the solve path.  Returns a description, or None."""
+    f = ev.func
+    n = ev.node
+    if ev.kind not in ('item-store', 'attr-store') or not isinstance(n, ast.Assign) or len(n.targets) != 1:
+        return None
+    t = n.targets[0]
+    if ev.kind == 'item-store':
+        if not (isinstance(t, ast.Subscript) and isinstance(t.value, ast.Attribute) and attr_path(t.value) and attr_path(t.value)[0] == 'self'):
+            return None
+        M, key_expr = t.value.attr, t.slice
+    else:
+        if not (isinstance(t, ast.Attribute) and attr_path(t) and attr_path(t)[0] == 'self'):
+            return None
+        M, key_expr = t.attr, None
+    # (1) accesses
+    for g in reach:
+        for x in ast.walk(g.node):
+            if isinstance(x, ast.Attribute) and x.attr == M:
+                if g is not f:
+                    return None
+    key_txt = ast.unparse(key_expr) if key_expr is not None else None
+    parents = {}
+    for x in ast.walk(f.node):
+        for ch in ast.iter_child_nodes(x):
+            parents[id(ch)] = x
+    for x in ast.walk(f.node):
+        if isinstance(x, ast.Attribute) and x.attr == M:
+            par = parents.get(id(x))
+            if key_expr is not None:
+                if isinstance(par, ast.Subscript) and par.value is x and ast.unparse(par.slice) == key_txt:
+                    continue
+                if isinstance(par, ast.Compare) and len(par.ops) == 1 and isinstance(par.ops[0], (ast.In, ast.NotIn)) and par.comparators[0] is x and ast.unparse(par.left) == key_txt:
+                    continue
+                if isinstance(par, ast.Attribute) and par.attr == 'get':
+                    gp = parents.get(id(par))
+                    if isinstance(gp, ast.Call) and gp.args and ast.unparse(gp.args[0]) == key_txt:
+                        continue
+                return None
+            else:
+                # attribute memo: only `is None` tests, the store, and plain reads of the stored value
+                continue
+    # (2) the key covers the parameters
+    params = [p for p in f.params if p != 'self']
+    key_names = set()
+    if key_expr is not None:
+        exprs = [key_expr]
+        if isinstance(key_expr, ast.Name):
+            for x in ast.walk(f.node):
+                if isinstance(x, ast.Assign) and any(isinstance(tt, ast.Name) and tt.id == key_expr.id for tt in x.targets):
+                    exprs.append(x.value)
+        for e in exprs:
+            key_names |= {x.id for x in ast.walk(e) if isinstance(x, ast.Name)}
+    # parameters the stored value depends on (directly, or through locals computed from them)
+    dep = {x.id for x in ast.walk(n.value) if isinstance(x, ast.Name)}
+    changed = True
+    while changed:
+        changed = False
+        for x in ast.walk(f.node):
+            if isinstance(x, ast.Assign):
+                tnames = {y.id for tt in x.targets for y in ast.walk(tt) if isinstance(y, ast.Name)}
+                if tnames & dep:
+                    more = {y.id for y in ast.walk(x.value) if isinstance(y, ast.Name)} - dep
+                    if more:
+                        dep |= more
+                        changed = True
+    missing = [p for p in params if p in dep and p not in key_names]
+    if missing:
+        return None
+    # (3) the stored value does not read the memo
+    if any(isinstance(x, ast.Attribute) and x.attr == M for x in ast.walk(n.value)):
+        return None
+    # (4) reset on the solve path
+    reset = False
+    for g in sreach:
+        for x in ast.walk(g.node):
+            if isinstance(x, ast.Assign) and any(isinstance(tt, ast.Attribute) and tt.attr == M for tt in x.targets) and is_fresh_value(x.value):
+                if key_expr is not None or (isinstance(x.value, ast.Constant) and x.value.value is None):
+                    reset = True
+    if not reset:
+        return None
+    return 'memo %s in %s: key (%s) covers the parameters %s; emptied on the solve path' % (M, f.qualname, key_txt or 'none needed', params)
 
 
 # ---- R2 ------------------------------------------------------------------------------------------------------------------
@@ -398,13 +493,33 @@ def check_never_fail(rep, repo, E, getters):
 
 
 # ---- R5 ------------------------------------------------------------------------------------------------------------------
+def constructs(repo, E, func, value, depth=0):
+    """the expression always evaluates to a newly constructed object of a repository class (directly, through a
+    conditional expression, or through a factory helper all of whose returns do)"""
+    if depth > 4:
+        return False
+    if isinstance(value, ast.IfExp):
+        return constructs(repo, E, func, value.body, depth + 1) and constructs(repo, E, func, value.orelse, depth + 1)
+    if not isinstance(value, ast.Call):
+        return False
+    if isinstance(value.func, ast.Name) and value.func.id in repo.classes:
+        return True
+    callees = E.resolve(func, value)
+    if not callees:
+        return False
+    for c in callees:
+        rets = [x for x in ast.walk(c.node) if isinstance(x, ast.Return)]
+        if not rets or not all(r.value is not None and constructs(repo, E, c, r.value, depth + 1) for r in rets):
+            return False
+    return True
+
+
 def check_fresh_objects(rep, repo, E, solve, sreach, long_lived):
     cfg = cfg_of(solve)
     assigns, runs = [], []
     for n in ast.walk(solve.node):
         if isinstance(n, ast.Assign) and any(isinstance(t, ast.Attribute) and attr_path(t) == ['self', 'solver'] for t in n.targets):
-            ctor = isinstance(n.value, ast.Call) and isinstance(n.value.func, ast.Name) and n.value.func.id in repo.classes
-            assigns.append((n, ctor))
+            assigns.append((n, constructs(repo, E, solve, n.value)))
         if isinstance(n, ast.Call) and isinstance(n.func, ast.Attribute) and n.func.attr == 'run' and attr_path(n.func.value) == ['self', 'solver']:
             runs.append(n)
     if not runs:
